@@ -57,6 +57,10 @@ def run(tier):
     bad_cli = [
         (["-go=abc"], ["abc", "version"]), (["-go=1"], ["version", "1"]), (["-go=1.x"], ["version", "1.x"]),
         (rg_on + ["-@ruleguard.rules=rules/ok.go", "-@ruleguard.failOn=zzz"], ["zzz", "failOn"]),
+        # an unknown failOn value is an error whatever the deprecated boolean says
+        (rg_on + ["-@ruleguard.rules=rules/ok.go", "-@ruleguard.failOn=zzz", "-@ruleguard.failOnError=true"], ["zzz", "failOn"]),
+        (rg_on + ["-@ruleguard.failOnError=true", "-@ruleguard.failOn=dsl,zzy", "-@ruleguard.rules=rules/ok.go"], ["zzy", "failOn"]),
+        (rg_on + ["-@ruleguard.rules=rules/nomatch*.go", "-@ruleguard.failOnError=true"], ["nomatch", "no file"]),
         (rg_on + ["-@ruleguard.rules=rules/nomatch*.go"], ["nomatch", "no file"]),
         (rg_on + ["-@ruleguard.rules=rules/ok.go,rules/missing.go"], ["missing", "no file"]),
         (["-enable=nosuchChecker"], ["empty"]), (["-enable="], ["empty"]), (["-enable=#nosuchtag"], ["empty"]), (["-enableAll", "-disable=#diagnostic,#style,#performance"], ["empty"]),
@@ -170,10 +174,67 @@ def run(tier):
             if "HARNESS:" in tail:
                 vlib.harness_fail(tail)
             res.add_violation("analyzer-reentry-crash:" + af.split("=")[0], "concurrent re-entry of the analyzer after an init error killed the process (aflags=%s)" % af, {"aflags": af, "stderr_tail": tail})
+    # ill-typed renditions of the maintainers' own examples: every call of every example file loses its
+    # arguments / gets a constant of the wrong kind / nil / an undefined name / one argument too many ...
+    # A checker that recognises an API by name and then trusts what the compiler would have enforced panics.
+    kinds_all = ["noargs", "droplast", "intfirst", "nilfirst", "extra", "undeffirst", "strlits", "noimports", "swapargs", "callfirst"]
+    kinds = kinds_all if tier == "thorough" else kinds_all[:4] + vlib.rng("c19ill").sample(kinds_all[4:], 2)
+    ipf = os.path.join(work, "illpats")
+    rc, so, se = vlib.sh([vw, "illtype", "-repo", vlib.REPO, "-ws", ws, "-kinds", ",".join(kinds), "-patterns", ipf], timeout=600)
+    if rc != 0:
+        vlib.harness_fail("illtype: " + se[-800:])
+    res.notes.append("ill-typed examples: kinds %s: %s" % (",".join(kinds), so.strip()))
+    ipats = [l for l in open(ipf).read().split("\n") if l]
+    shards = vlib.shard(ipats, vlib.NCPU)
+    crashed_pkgs = set()
+
+    def illone(it):
+        i, sh = it
+        pfi = os.path.join(work, "ip%d" % i)
+        open(pfi, "w").write("\n".join(sh) + "\n")
+        outp = os.path.join(work, "ill%d.jsonl" % i)
+        vlib.run_worker([vw, "illscan", "-dir", ws, "-patterns", pfi, "-out", outp], os.path.join(work, "ill%d.log" % i), 1500)
+        return outp, i
+
+    def on_ill(r):
+        if r.get("kind") == "violation":
+            f = (r.get("case") or {}).get("file", "")
+            if "/ill/" in f:
+                crashed_pkgs.add("./ill/" + "/".join(f.split("/ill/")[1].split("/")[:2]))
+
+    ill_done = 0
+    for outp, i in vlib.parallel(illone, list(enumerate(shards))):
+        if res.read_jsonl(outp, accept_props={"C19"}, on_record=on_ill):
+            ill_done += 1
+        else:
+            tail = open(os.path.join(work, "ill%d.log" % i), errors="replace").read()[-1500:]
+            vlib.harness_fail("illscan worker %d did not finish: %s" % (i, tail))
+    # the same packages through the real command: those that panicked in-process plus a seeded sample
+    r2 = vlib.rng("c19illcli")
+    cli_pk = sorted(crashed_pkgs)[:24] + r2.sample(ipats, min(len(ipats), 24 if tier == "quick" else 120))
+
+    def illcli(pk):
+        rc, so, se = vlib.sh([os.path.join(bins, "go-critic"), "check", "-enableAll", pk], cwd=ws, timeout=300)
+        return pk, rc, so, se
+
+    for pk, rc, so, se in vlib.parallel(illcli, cli_pk):
+        res.count("runs")
+        res.count("runs:illtyped-cli")
+        res.put("cases", "illtyped|go-critic|" + pk.split("/")[-1])
+        txt = se + so
+        if rc == -9:
+            res.add_violation("hang:cli:illtyped", "go-critic check -enableAll %s did not finish" % pk, {"package": pk})
+        elif CRASH_RE.search(txt):
+            m = re.search(r"\n(github\.com/go-critic/go-critic/[^\s(]+)\(", txt)
+            res.add_violation("crash:illtyped-cli:%s" % (m.group(1).split("/")[-1] if m else "?"), "go-critic check -enableAll %s crashed with a Go panic/trace" % pk,
+                              {"package": pk, "dir": os.path.join(ws, pk), "stderr": se[-2500:]})
     cov = {
-        "evaluations": res.counts.get("runs", 0) + res.counts.get("parallel_passes", 0),
+        "evaluations": res.counts.get("runs", 0) + res.counts.get("parallel_passes", 0) + res.counts.get("ill_packages_analysed", 0),
+        "ill_typed_packages_analysed_in_process": res.counts.get("ill_packages_analysed", 0),
+        "ill_typed_checker_file_runs": res.counts.get("ill_checker_file_runs", 0),
+        "ill_typed_kinds": kinds,
         "distinct_nontrivial": len(res.sets.get("cases", ())),
-        "rule": "fault alphabet = %d invalid configurations x 4 binaries x package counts %s, plus %d broken target packages (syntax/type/import/mixed-clause/duplicate/cycle/empty) alone and mixed with healthy ones; "
+        "rule": "fault alphabet = %d invalid configurations x 4 binaries x package counts %s, plus %d broken target packages (syntax/type/import/mixed-clause/duplicate/cycle/empty) alone and mixed with healthy ones, plus the maintainers' examples of every checker made ill-typed in up to ten ways (all calls without arguments, without the last one, with 42 / nil / an undefined name / a multi-value call first, one argument too many, swapped, numeric literals turned into strings, imports removed), every checker run over every such file under recover and a sample through the real command; "
                 "oracle = non-zero status + message naming the problem + no panic/goroutine trace + no diagnostics + same behaviour for every package count; "
                 "distinct_nontrivial = distinct (kind, binary, configuration or broken target) cases" % (len(bad_cli), counts, len(BROKEN)),
         "analyzer_reentry_passes": res.counts.get("parallel_passes", 0),
